@@ -108,6 +108,8 @@ func (e *fnEnc) instr(in ssa.Instruction) {
 		mt := i.Type().Underlying().(*types.Map)
 		hk := e.S().MapHasKey(mt)
 		e.setHeap(hk, fmt.Sprintf("(store %s %s ((as const (Array Int Bool)) false))", e.heap(hk), n))
+		e.vc.declFun("maplen", "((Array Int Bool)) Int")
+		e.vc.def("(= (maplen ((as const (Array Int Bool)) false)) 0)")
 	case *ssa.MakeSlice:
 		e.makeSlice(i)
 	case *ssa.Range:
@@ -764,6 +766,8 @@ func (e *fnEnc) mapUpdate(i *ssa.MapUpdate) {
 	hh, vh := e.heap(hk), e.heap(vk)
 	e.setHeap(hk, fmt.Sprintf("(store %s %s (store (select %s %s) %s true))", hh, m, hh, m, k))
 	e.setHeap(vk, fmt.Sprintf("(store %s %s (store (select %s %s) %s %s))", vh, m, vh, m, k, e.term(i.Value)))
+	e.vc.declFun("maplen", "((Array Int Bool)) Int")
+	e.vc.assume(fmt.Sprintf("(and (>= (maplen (select %s %s)) 1) (>= (maplen (select %s %s)) (maplen (select %s %s))))", e.heap(hk), m, e.heap(hk), m, hh, m))
 }
 
 func (e *fnEnc) makeInterface(i *ssa.MakeInterface) {
@@ -947,6 +951,9 @@ func (e *fnEnc) next(i *ssa.Next) {
 			k := e.mapKey(kn, mt.Key())
 			e.vc.declFun("maplen", "((Array Int Bool)) Int")
 			e.vc.assume(sImp(okn, fmt.Sprintf("(> (maplen (select %s %s)) 0)", e.heap(e.S().MapHasKey(mt)), m)))
+			// the first step of an iteration succeeds iff the map is not empty
+			itk := HeapKey{Name: "ITER!" + e.prefix + rng.Name(), Sort: "Int"}
+			e.vc.assume(sImp(fmt.Sprintf("(= %s 0)", e.heap(itk)), sEq(okn, fmt.Sprintf("(and (not (= %s 0)) (> (maplen (select %s %s)) 0))", m, e.heap(e.S().MapHasKey(mt)), m))))
 			e.vc.assume(sImp(okn, sAnd(fmt.Sprintf("(not (= %s 0))", m),
 				fmt.Sprintf("(select (select %s %s) %s)", e.heap(e.S().MapHasKey(mt)), m, k),
 				sEq(vn, fmt.Sprintf("(select (select %s %s) %s)", e.heap(e.S().MapValKey(mt)), m, k)))))
